@@ -170,3 +170,27 @@ FIXED = [
     (b'<model xmlns="http://www.cellml.org/cellml/2.0#" name="m"><component name="c"><variable name="x" units="second" initial_value="x"/><variable name="y" units="second" initial_value="."/></component></model>', 'initial values'),
     (b'<model xmlns="http://www.cellml.org/cellml/2.0#" name="m"><component name="c"><variable name="x" units="second"/><reset variable="x" test_variable="x" order="-"><test_value/><reset_value/></reset></component></model>', 'reset order "-"'),
 ]
+
+
+# operators with missing operands: the validator does not check the arity of MathML elements, so these reach the analyser and,
+# where the equation still determines its variable, the generator
+_N = '<cn cellml:units="dimensionless">1</cn>'
+_SHAPES = {
+    'empty piecewise': '<apply><eq/><ci>v0</ci><piecewise/></apply>', 'empty piece': '<apply><eq/><ci>v0</ci><piecewise><piece/></piecewise></apply>',
+    'piece with one child': '<apply><eq/><ci>v0</ci><piecewise><piece>' + _N + '</piece></piecewise></apply>', 'empty otherwise': '<apply><eq/><ci>v0</ci><piecewise><otherwise/></piecewise></apply>',
+    'plus without operands': '<apply><eq/><ci>v0</ci><apply><plus/></apply></apply>', 'times with one operand': '<apply><eq/><ci>v0</ci><apply><times/>' + _N + '</apply></apply>',
+    'divide with one operand': '<apply><eq/><ci>v0</ci><apply><divide/>' + _N + '</apply></apply>', 'eq with one operand': '<apply><eq/><ci>v0</ci></apply>', 'empty apply': '<apply><eq/><ci>v0</ci><apply/></apply>',
+    'log without operand': '<apply><eq/><ci>v0</ci><apply><log/></apply></apply>', 'log with a base only': '<apply><eq/><ci>v0</ci><apply><log/><logbase>' + _N + '</logbase></apply></apply>',
+    'root with a degree only': '<apply><eq/><ci>v0</ci><apply><root/><degree>' + _N + '</degree></apply></apply>', 'power with one operand': '<apply><eq/><ci>v0</ci><apply><power/>' + _N + '</apply></apply>',
+    'min without operands': '<apply><eq/><ci>v0</ci><apply><min/></apply></apply>', 'min with one operand': '<apply><eq/><ci>v0</ci><apply><min/>' + _N + '</apply></apply>',
+    'not without operand': '<apply><eq/><ci>v0</ci><apply><not/></apply></apply>', 'and with one operand': '<apply><eq/><ci>v0</ci><apply><and/>' + _N + '</apply></apply>',
+    'lt with one operand': '<apply><eq/><ci>v0</ci><apply><lt/>' + _N + '</apply></apply>', 'sin without operand': '<apply><eq/><ci>v0</ci><apply><sin/></apply></apply>',
+    'minus without operands': '<apply><eq/><ci>v0</ci><apply><minus/></apply></apply>', 'rem with one operand': '<apply><eq/><ci>v0</ci><apply><rem/>' + _N + '</apply></apply>',
+    'diff without bvar': '<apply><eq/><apply><diff/><ci>v0</ci></apply>' + _N + '</apply>', 'diff with a bvar only': '<apply><eq/><apply><diff/><bvar><ci>t</ci></bvar></apply>' + _N + '</apply>',
+    'bare diff on the right': '<apply><eq/><apply><diff/><bvar><ci>t</ci></bvar><ci>v0</ci></apply><apply><diff/></apply></apply>',
+}
+for _k, _m in _SHAPES.items():
+    _ode = 'diff' in _m
+    FIXED.append((('<?xml version="1.0" encoding="UTF-8"?><model xmlns="http://www.cellml.org/cellml/2.0#" xmlns:cellml="http://www.cellml.org/cellml/2.0#" name="m"><component name="c0">'
+                   '<variable name="v0" units="dimensionless"%s/>%s<math xmlns="http://www.w3.org/1998/Math/MathML">%s</math></component></model>'
+                   % (' initial_value="1"' if _ode else '', '<variable name="t" units="dimensionless"/>' if _ode else '', _m)).encode(), 'MathML operator with missing operands: ' + _k))
